@@ -22,6 +22,27 @@ loop_terminates fsv_terminates loop_mono rinv_loop fsv_rangeOk fsvChecked_ok fsv
 LAT_REF = ["Voi.Props.LatticeRefine." + n for n in """sval_wrap addShifted_wrap subShifted_wrap fromInt512_wrap head_sim update_sim loop_sim
 refines fsvW_eq_fsv no_model_mismatch""".split()]
 
+BATCH_THMS = ["Voi.Props.BatchInv." + n for n in """inv_init inv_step inv_run reset_init precompute_safe verify_eq verify_conj
+verifyBatchOnly_eq verifyBatchOnly_panic_iff modeOf_eq verify_true_admissible serialVerdict_plain serialVerdict_expand admit_expand
+verify_after_history verifyBatchOnly_after_history""".split()]
+L0_THMS = {"Voi.Props.L0." + n: ["Voi.Props.L0." + n] for n in """FieldU64_feMulGeneric FieldU64_fePow2kGeneric1 FieldU64_reduce FieldU64_Add
+FieldU64_Sub FieldU64_Neg FieldU64_Mul121666 FieldU64_Square2 FieldU64_SetBytes FieldU64_SetBytesWide FieldU64_ToBytes FieldU64_ConditionalSelect
+FieldU64_ConditionalSwap FieldU64_ConditionalAssign FieldU32_Mul FieldU32_Pow2k1 FieldU32_reduce FieldU32_Add FieldU32_Sub FieldU32_Neg
+FieldU32_Mul121666 FieldU32_Square2 FieldU32_SetBytes FieldU32_SetBytesWide FieldU32_ToBytes FieldU32_ConditionalSelect FieldU32_ConditionalSwap
+FieldU32_ConditionalAssign ScalarU64_scalarMulInternal ScalarU64_squareInternal ScalarU64_MontgomeryReduce ScalarU64_Add ScalarU64_Sub
+ScalarU64_SetBytes ScalarU64_ToBytes ScalarU64_FromMontgomery ScalarU64_MontgomeryMul ScalarU32_scalarMulInternal ScalarU32_squareInternal
+ScalarU32_MontgomeryReduce ScalarU32_Add ScalarU32_Sub ScalarU32_SetBytes ScalarU32_ToBytes ScalarU32_FromMontgomery ScalarU32_MontgomeryMul""".split()}
+L0_FIELD = {k: v for k, v in L0_THMS.items() if "Field" in k}
+L0_SCALAR = {k: v for k, v in L0_THMS.items() if "Scalar" in k}
+IR_CORE = {"Voi.IR.Check": ["Voi.IR.check_sound", "Voi.IR.run_sound", "Voi.IR.srun_sound", "Voi.IR.wrapsOK_sound"]}
+CACHE_THMS = ["Voi.Props.CacheInv." + n for n in """upsert_spec verify_transparent verifyExpanded_expand verify_eq_spec addToBatch_transparent
+cacheOK_run verify_after_history""".split()]
+
+LRU_THMS = ["Voi.Props.LRUInv." + n for n in """inv_new inv_get inv_put inv_put_nil inv_step inv_run cap_step refine_get refine_put refine_step
+refine_run put_evicts_lru put_no_evict put_hit Spec.items_run Spec.get_returns_put binding_from_put get_returns_put Spec.keys_eq_stack
+list_eq_stack""".split()]
+LIN_THMS = ["Voi.Props.LinearizeSound." + n for n in "search_sound search_complete linearizable_iff".split()]
+
 PROPS = {
     "C01": dict(
         level="translation_validation",
@@ -30,16 +51,24 @@ PROPS = {
     ),
     "C02": dict(level="translation_validation", streams=[("K1", 1500)], configs_quick=Q4, configs_thorough=T4, theorems={}),
     "C03": dict(level="translation_validation", streams=[("G1", 1500)], configs_quick=T4, configs_thorough=T4, thorough_mult=4, theorems={}),
-    "C05": dict(level="translation_validation", streams=[("S1", 4000)], configs_quick=["default", "force32bit"], configs_thorough=T4, theorems={}),
+    "C04": dict(level="proof", gens=["go2ir"], streams=[("T0", 6000)], configs_quick=["default", "purego", "force32bit"], configs_thorough=T4,
+                theorems={**IR_CORE, **L0_FIELD}),
+    "C05": dict(level="proof", gens=["go2ir"], streams=[("S1", 4000), ("T0", 4000)], configs_quick=["default", "force32bit"], configs_thorough=T4,
+                theorems={**IR_CORE, **L0_SCALAR}),
     "C07": dict(level="translation_validation", streams=[("X1", 2500)], configs_quick=Q4, configs_thorough=T4, theorems={}),
+    "C09": dict(level="proof", streams=[("B1", 1500), ("C1", 1500)], configs_quick=Q4, configs_thorough=T4, thorough_mult=4,
+                theorems={"Voi.Props.BatchInv": BATCH_THMS, "Voi.Props.CacheInv": CACHE_THMS}),
     "C10": dict(level="translation_validation", streams=[("D1", 3000)], configs_quick=Q4, configs_thorough=T4, theorems={}),
     "C11": dict(level="translation_validation", streams=[("T1", 3000)], configs_quick=Q4, configs_thorough=T4, theorems={}),
+    "C12": dict(level="translation_validation", streams=[("Q1", 2500)], configs_quick=Q4, configs_thorough=T4, theorems={}),
     "C13": dict(level="proof", streams=[("M1", 4000), ("S0", 2000)], configs_quick=Q4, configs_thorough=T4,
                 theorems={"Voi.Props.StrobeInv": STROBE_THMS}),
     "C14": dict(level="translation_validation", streams=[("H1", 2500), ("H2", 2000)], configs_quick=Q4, configs_thorough=T4, theorems={}),
     "C15": dict(level="translation_validation", streams=[("E1", 2000)], configs_quick=Q4, configs_thorough=T4, theorems={}),
     "C16": dict(level="proof", streams=[("L1", 3000)], configs_quick=Q4, configs_thorough=T4,
                 theorems={"Voi.Props.LatticeInv": LAT_INV, "Voi.Props.LatticeRefine": LAT_REF}),
+    "C18": dict(level="proof", streams=[("C2", 3000), ("C1", 800)], configs_quick=Q4, configs_thorough=T4,
+                theorems={"Voi.Props.LRUInv": LRU_THMS, "Voi.Props.LinearizeSound": LIN_THMS}),
     "C17": dict(level="translation_validation", streams=[("R1", 4000)], configs_quick=["default", "force32bit"], configs_thorough=T4, theorems={}),
 }
 NOT_YET = {}
